@@ -27,6 +27,7 @@ func (g *G) Insert() ([]Tok, *ast.InsertStatement) {
 		var cs [][]Tok
 		for i := 0; i < ncols; i++ {
 			c := g.pick(colPool, "inscol")
+			g.Names.Columns[c.name] = true
 			cs = append(cs, sym(c.src))
 			s.Columns = append(s.Columns, &ast.Identifier{Name: c.name})
 		}
@@ -62,6 +63,7 @@ func (g *G) Insert() ([]Tok, *ast.InsertStatement) {
 		t = cat(t, g.kw("ON", "CONFLICT"))
 		if g.chance(70, "octarget") {
 			c := g.pick(colPool, "occol")
+			g.Names.Columns[c.name] = true
 			t = cat(t, sym("(", c.src, ")"))
 			oc.Target = []ast.Expression{&ast.Identifier{Name: c.name}}
 		}
@@ -74,6 +76,7 @@ func (g *G) Insert() ([]Tok, *ast.InsertStatement) {
 			var sets [][]Tok
 			for i := 0; i < n; i++ {
 				c := g.pick(colPool, "ocsetcol")
+				g.Names.Columns[c.name] = true
 				v := g.at(g.Value(), POr)
 				sets = append(sets, cat(sym(c.src, "="), v.T))
 				oc.Action.DoUpdate = append(oc.Action.DoUpdate, ast.UpdateExpression{Column: &ast.Identifier{Name: c.name}, Value: v.N})
@@ -102,6 +105,7 @@ func (g *G) Update() ([]Tok, *ast.UpdateStatement) {
 	var sets [][]Tok
 	for i := 0; i < n; i++ {
 		c := g.pick(colPool, "setcol")
+		g.Names.Columns[c.name] = true
 		v := g.at(g.Value(), POr)
 		sets = append(sets, cat(sym(c.src, "="), v.T))
 		s.Assignments = append(s.Assignments, ast.UpdateExpression{Column: &ast.Identifier{Name: c.name}, Value: v.N})
